@@ -60,8 +60,9 @@ PubKeyCls(l)  == IF l \in {"b58", "b58short"} THEN "ok" ELSE "bad"
 RelL     == {"ref", "dangling", "ded", "dedbadid", "dedbadkey", "nilcontent", "refforeign",
              "ref_ded", "ded_ref", "ref_dangling", "dangling_ref", "ded_dangling", "dangling_ded", "ded_dedbadkey", "dedbadkey_ded", "ded_refforeign", "ded_nilcontent"}
 RelCls(l)     == IF l \in {"ref", "ded", "ref_ded", "ded_ref"} THEN "ok" ELSE "bad"
-CtxL     == {"w3c", "absent", "other", "w3c_w3c", "w3c_empty", "w3c_x", "emptylist"}
-CtxCls(l)     == IF l \in {"w3c", "absent", "w3c_x"} THEN "ok" ELSE IF l \in {"w3c_empty", "emptylist"} THEN "any" ELSE "bad"
+\* "W3C context first and unique": a repeat is a repeat wherever it stands in the list (adjacent or not)
+CtxL     == {"w3c", "absent", "other", "w3c_w3c", "w3c_empty", "w3c_x", "emptylist", "w3c_x_y", "w3c_x_w3c", "w3c_x_y_x", "x_w3c"}
+CtxCls(l)     == IF l \in {"w3c", "absent", "w3c_x", "w3c_x_y"} THEN "ok" ELSE IF l \in {"w3c_empty", "emptylist"} THEN "any" ELSE "bad"
 CtlL     == {"absent", "emptylist", "emptystr", "did", "bad", "did_bad"}
 CtlCls(l)     == IF l \in {"bad", "did_bad"} THEN "bad" ELSE "ok"
 SvcL     == {"none", "complete", "noid", "notype", "noendpoint", "two", "two_secondnoid", "two_secondnotype", "two_firstnoendpoint"}
